@@ -333,10 +333,11 @@ pub fn run_check<P: Prop>(p: &P, tier: Tier) -> i32 {
         }
         seen_keys.push(v.key.clone());
         new_violations += 1;
-        if new_violations > 6 {
-            continue; // bound minimisation work; all are counted
+        if new_violations > 40 {
+            continue; // bound the work; all are counted
         }
-        let path = report_violation(p, seed, *idx, v, tier, &mut ctx);
+        // the first few distinct violations are minimised; the rest are written as they are
+        let path = report_violation(p, seed, *idx, v, tier, &mut ctx, new_violations <= 8);
         println!("VIOLATION property={} replay={}", p.id(), path.display());
         println!("  clause={} key={}", v.clause, v.key);
         println!("  detail={}", truncate(&v.detail, 600));
@@ -442,14 +443,14 @@ fn same_violation(out: &Outcome, v: &Violation) -> Option<Violation> {
         .cloned()
 }
 
-fn report_violation<P: Prop>(p: &P, seed: u64, idx: u64, v: &Violation, tier: Tier, ctx: &mut Ctx) -> PathBuf {
+fn report_violation<P: Prop>(p: &P, seed: u64, idx: u64, v: &Violation, tier: Tier, ctx: &mut Ctx, minimise: bool) -> PathBuf {
     let cs = mix(seed, stream_of(p.id()), idx);
     let mut case = p.gen(cs, idx, tier);
     let mut cur_v = v.clone();
     // delta debugging: accept a step only if the same clause with the same key still fails
     let mut steps = 0u64;
     let mut execs = 0u64;
-    let mut progress = true;
+    let mut progress = minimise;
     while progress && execs < 400 {
         progress = false;
         for cand in p.shrink(&case) {
